@@ -191,7 +191,7 @@ def handleFin (j : Json) : Except String Json := do
   let ls ← (← getArr j "loaders").toList.mapM fun x => do
     pure (⟨← getNat x "d", ← getNatList x "refs", ← getNatList x "paths"⟩ : Loader)
   let evs ← (← getArr j "events").toList.mapM parseFinEv
-  let under := optBool j "underLock" Gen.finaliseDecidedUnderLock
+  let under := optBool j "underLock" (Gen.finaliseDecidedUnderLock && Gen.decisionInsideRemoveBlock)
   let wf : Bool := decide (LoadersWF ls)
   match accepts (Fin.step under ls) (Fin.init ls) evs 0 with
   | .error i => pure (notOk i "finaliser event not enabled")
@@ -200,6 +200,32 @@ def handleFin (j : Json) : Except String Json := do
     pure (Json.mkObj [("ok", Json.bool true), ("wf", Json.bool wf), ("underLock", Json.bool under),
       ("phases", Json.arr (ls.map (fun l => Json.arr #[jnat l.d, lphaseJson (σ.phase l.d)])).toArray),
       ("files", Json.arr (files.map (fun f => Json.arr #[jnat f, jnat (σ.finCount f), Json.bool (σ.hasMeta f), natArr (sortNat (σ.pending f))])).toArray)])
+
+/-! ### loop life -/
+
+def parseLifeEv (e : Json) : Except String LifeEv := do
+  let (n, a) ← evName e
+  match n with
+  | "begin" => pure .begin
+  | "grant" => pure .grant
+  | "finish" => pure (.finish (← argBool a 0))
+  | "dropQueued" => pure .dropQueued
+  | "ret" => pure .ret
+  | "cancelWaiter" => pure .cancelWaiter
+  | "close" => pure .close
+  | _ => throw s!"unknown life event {n}"
+
+def handleLife (j : Json) : Except String Json := do
+  let n ← getNat j "n"
+  let jobs ← getNat j "jobs"
+  let evs ← (← getArr j "events").toList.mapM parseLifeEv
+  let joins := optBool j "joins" Gen.restoreJoinsLoadersOnFailure
+  match accepts (Life.step joins) (Life.init n jobs) evs 0 with
+  | .error i => pure (Json.mkObj [("ok", Json.bool false), ("index", jnat i), ("why", Json.str "life event not enabled"), ("joins", Json.bool joins)])
+  | .ok σ =>
+    pure (Json.mkObj [("ok", Json.bool true), ("joins", Json.bool joins), ("free", jnat σ.free), ("held", jnat σ.held), ("waiting", jnat σ.waiting),
+      ("queued", jnat σ.queued), ("failed", Json.bool σ.failed), ("returned", Json.bool σ.returned), ("closed", Json.bool σ.closed),
+      ("lost", jnat σ.lost), ("stuck", Json.bool (σ.closed && decide (0 < σ.waiting)))])
 
 def handleSched (op : String) (j : Json) : Except String Json := do
   match op with
@@ -212,6 +238,8 @@ def handleSched (op : String) (j : Json) : Except String Json := do
       ("flockShapeRecognised", Json.bool Gen.flockShapeRecognised), ("flockDelAtZero", Json.bool Gen.flockDelAtZero),
       ("loaderJoinsWritersFirst", Json.bool Gen.loaderJoinsWritersFirst), ("removeUnderGlock", Json.bool Gen.removeUnderGlock),
       ("popUnderGlock", Json.bool Gen.popUnderGlock), ("finaliseDecidedUnderLock", Json.bool Gen.finaliseDecidedUnderLock),
+      ("decisionInsideRemoveBlock", Json.bool Gen.decisionInsideRemoveBlock),
+      ("restoreJoinsLoadersOnFailure", Json.bool Gen.restoreJoinsLoadersOnFailure),
       ("queueFactor", jnat Gen.queueFactor), ("loaderFactor", jnat Gen.loaderFactor)])
   | "sched.accepts" =>
     match ← getStr j "system" with
@@ -219,6 +247,7 @@ def handleSched (op : String) (j : Json) : Except String Json := do
     | "snapshot" => handleSnap j
     | "locks" => handleLocks j
     | "fin" => handleFin j
+    | "life" => handleLife j
     | s => throw s!"unknown system {s}"
   | _ => throw s!"unknown op {op}"
 
